@@ -97,7 +97,7 @@ func writeAttr(b *bufio.Writer, name, value string) error {
 // If an XML header is discovered instead, it is skipped.
 func Expect(ctx context.Context, in *stream.Info, d xml.TokenReader, recv, ws bool) error {
 	// Skip the XML declaration (if any).
-	d = negotiateReader(decl.Skip(d), ws)
+	d = negotiateReader(errorReader{r: decl.Skip(d)}, ws)
 
 	for {
 		select {
@@ -154,6 +154,32 @@ func Expect(ctx context.Context, in *stream.Info, d xml.TokenReader, recv, ws bo
 			return nil
 		}
 	}
+}
+
+// errorReader returns a stream error that is sent in place of a stream header
+// (or inside the WebSocket open element) as the error of the Token call.
+// It must sit below the stream reader, which would otherwise try to decode the
+// error with a new xml.Decoder that has not seen the start element, something
+// that encoding/xml does not support for types that implement xml.Unmarshaler.
+type errorReader struct {
+	r xml.TokenReader
+}
+
+func (r errorReader) Token() (xml.Token, error) {
+	tok, err := r.r.Token()
+	start, ok := tok.(xml.StartElement)
+	if !ok || start.Name.Local != "error" || start.Name.Space != stream.NS {
+		return tok, err
+	}
+	if err != nil {
+		return nil, err
+	}
+	se := stream.Error{}
+	err = xml.NewTokenDecoder(xmlstream.Wrap(xmlstream.Inner(r.r), start)).Decode(&se)
+	if err != nil {
+		return nil, err
+	}
+	return nil, se
 }
 
 const (
